@@ -390,7 +390,7 @@ func wfProperty(id, level, rule string, o func(c *Ctx) WFOpts, checks func(c *Ct
 			if tier == "thorough" {
 				return 12
 			}
-			return 4
+			return 8
 		},
 		Timeout: func(tier string) time.Duration {
 			if tier == "thorough" {
